@@ -475,8 +475,9 @@ def run_property(prop, tier, base, workers=None):
           "coverage": cov, "assumptions": prop.ASSUMPTIONS, "wall_s": round(wall, 2),
           "violations": len(reported)}
     if status != 2:
-        os.makedirs(os.path.join(VERIF, "evidence"), exist_ok=True)
-        json.dump(ev, open(os.path.join(VERIF, "evidence", prop.ID + ".json"), "w"), indent=1, default=str)
+        evdir = os.environ.get("VERIF_EVIDENCE_DIR") or os.path.join(VERIF, "evidence")   # tools only (seedcheck, sensitivity)
+        os.makedirs(evdir, exist_ok=True)
+        json.dump(ev, open(os.path.join(evdir, prop.ID + ".json"), "w"), indent=1, default=str)
     print("%s: %d cases, %d distinct non-trivial, %d unlisted signature(s), known findings hit %s, %.1fs -> exit %d" % (
         prop.ID, n_run, len(keys), len(by_sig), dict(hits), wall, status))
     return status
